@@ -37,6 +37,9 @@ class ClassInfo:
                     self.decorators[st.name] = decs
             elif isinstance(st, ast.Assign):
                 self.assigns.append(st)
+            elif isinstance(st, ast.AnnAssign) and st.value is not None and isinstance(st.target, ast.Name):
+                # NAME: annotation = value  -> the same class-level assignment
+                self.assigns.append(ast.copy_location(ast.Assign(targets=[st.target], value=st.value), st))
 
     def __repr__(self):
         return f"<class {self.name}>"
